@@ -63,6 +63,15 @@ finding(["C18"], "P4", "tensor.allTypes",
         "Of() registers an unknown element type by appending to the global type-class table (Register -> allTypes.set) without any lock; two goroutines constructing tensors of a new element type race",
         "unsynchronised write in tensor.Register", 25)
 
+# ---- engine P2 (operand purity) ---------------------------------------------------------------
+for k in ["tensor.(StdEng).Dot(y)", "tensor.Dot(y)"]:
+    finding(["C09","C18"], "P2", k, "Dot(vector, matrix) does b.T(); defer b.UT() on its operand: a lazily transposed b comes back untransposed, and concurrent readers of b race",
+            "writes AP.fin, AP.o, AP.shape, AP.strides, AP.Δ, Dense.AP, Dense.old, Dense.transposeWith", 13)
+for k in ["tensor.(*Dense).Outer(t)", "tensor.(*Dense).Outer(other)", "tensor.(StdEng).Outer(a)", "tensor.(StdEng).Outer(b)", "tensor.Outer(a)", "tensor.Outer(b)"]:
+    finding(["C09","C18"], "P2", k, "Outer into a column-major result temporarily reshapes both operands (and panics in BLAS)", "writes AP.fin, AP.shape, AP.strides", 14)
+for k in ["tensor.(*Dense).Concat(t)", "tensor.(*Dense).Hstack(t)", "tensor.(*Dense).Vstack(t)", "tensor.(StdEng).Concat(t)", "tensor.(StdEng).Concat(others)", "tensor.Concat(t)"]:
+    finding(["C10","C18"], "P2", k, "denseConcat reshapes row-vector operands and clears a masked operand's mask (mt.SetMask(nil)); the restore is commented out", "writes AP.fin, AP.shape, AP.strides, Dense.mask", 16)
+
 # ---- engine L (layout predicates) ------------------------------------------------------------
 finding(["C12","C16","C07","C06","C11","C04"], "L0", "tensor.prepDataUnary#useIter",
         "prepDataUnary has no data-order term: Neg(colA, WithIncr(rowZeros)) adds raw column-major data into a row-major buffer (non-incr reuse is compensated by handleFuncOpts giving reuse the operand's order)",
